@@ -4,6 +4,8 @@ package c09
 import (
 	"bytes"
 	"fmt"
+	"os"
+	"path/filepath"
 	"regexp"
 	"runtime"
 	"sync"
@@ -179,6 +181,38 @@ func renderYield0(f *jen.File) string {
 	return out
 }
 
+// saveFile saves the File to its own path several times and reads it back each time; the first
+// result that differs from want (nonce normalised) is returned, else the last one.
+func saveFile(f *jen.File, path, want string) string {
+	out := ""
+	for k := 0; k < 6; k++ {
+		if hung.Load() {
+			return "HUNG: an earlier File.Render in this process never returned"
+		}
+		if perr := hx.Safe(func() error {
+			if err := f.Save(path); err != nil {
+				// what Render reports for the same File: the message of the formatting error
+				out = "ERROR: " + err.Error()
+				return nil
+			}
+			b, err := os.ReadFile(path)
+			if err != nil {
+				out = "SAVED FILE UNREADABLE: " + err.Error()
+				return nil
+			}
+			out = "OK:" + string(b)
+			return nil
+		}); perr != nil {
+			return "PANIC: " + perr.Error()
+		}
+		if norm(out) != want {
+			return out
+		}
+		runtime.Gosched()
+	}
+	return out
+}
+
 var nonceRe = regexp.MustCompile(`n[0-9]+\.example/`)
 
 // norm removes the per-phase nonce from an output.
@@ -231,22 +265,39 @@ func check(c Case) error {
 		}
 		return nil
 	}
-	// concurrently, on n goroutines released together
+	// concurrently, on n goroutines released together; every other round goes through File.Save:
+	// all jobs save into one directory, each under its own file name, a few times over
 	for round := 0; round < c.Rounds; round++ {
 		jobs := fresh(false)
 		got := make([]string, n)
 		var wg sync.WaitGroup
 		start := make(chan struct{})
+		dir := ""
+		if round%2 == 1 {
+			d, err := os.MkdirTemp("", "c09save")
+			if err != nil {
+				return nil // no scratch space: nothing to say about jennifer
+			}
+			dir = d
+		}
 		for i := range jobs {
 			wg.Add(1)
 			go func(i int) {
 				defer wg.Done()
 				<-start
-				got[i] = renderYield((&recipe.Builder{}).File(jobs[i]))
+				f := (&recipe.Builder{}).File(jobs[i])
+				if dir == "" {
+					got[i] = renderYield(f)
+					return
+				}
+				got[i] = saveFile(f, filepath.Join(dir, fmt.Sprintf("job%d.go", i)), norm(ref[i]))
 			}(i)
 		}
 		close(start)
 		wg.Wait()
+		if dir != "" {
+			os.RemoveAll(dir)
+		}
 		for i := range got {
 			if err := cmp(fmt.Sprintf("concurrent round %d", round), i, got[i]); err != nil {
 				return err
@@ -325,7 +376,7 @@ func TestC09(t *testing.T) {
 	if r.Thorough() {
 		rounds = 30
 	}
-	r.Rule(fmt.Sprintf("rapid-generated sets of 4..16 jobs (File recipes from the import-scenario generator with competing names, plausible programs, random DSL trees); every job is rendered alone (reference), then all jobs sequentially in 3 random permutations (build all then render all; build and render alternating), then concurrently on one goroutine per job released by a barrier, %d rounds, the test binary being built with -race; and sets of 2..3 Files with different prefix / hints / local path that share sub-statements (the same Code value added to each), rendered one after another in random orders and compared with the same Files built from unshared copies; non-trivial = >= 2 jobs that register imports; distinct by job set", rounds))
+	r.Rule(fmt.Sprintf("rapid-generated sets of 4..16 jobs (File recipes from the import-scenario generator with competing names, plausible programs, random DSL trees); every job is rendered alone (reference), then all jobs sequentially in 3 random permutations (build all then render all; build and render alternating), then concurrently on one goroutine per job released by a barrier, %d rounds (every other round through File.Save: all jobs save into one directory, each under its own file name, six times over, and read the file back), the test binary being built with -race; and sets of 2..3 Files with different prefix / hints / local path that share sub-statements (the same Code value added to each), rendered one after another in random orders and compared with the same Files built from unshared copies; non-trivial = >= 2 jobs that register imports; distinct by job set", rounds))
 	r.Assume("goroutine interleavings are sampled by the Go scheduler, not enumerated; the sequential-history part is deterministic")
 	hx.Rapid(r, t, hx.Check[Case]{Name: "independent_jobs", Fn: func(c Case) error { r.Checkpoint("independent_jobs", c); return check(c) }}, r.N(60, 100), func(rt *rapid.T) Case {
 		n := rapid.IntRange(4, 16).Draw(rt, "njobs")
